@@ -35,7 +35,8 @@ def showFrame (form : Form) (f : Frame) : String :=
 
 def showParsed (form : Form) (pe : PE) : String :=
   let fr := if pe.frames.isEmpty then "-" else " ".intercalate (pe.frames.map (showFrame form))
-  let str := if form = .se && !pe.frames.isEmpty then "XKeyError" else hx (toString pe)
+  -- to_string() of frames read from the SyntaxError form is outside the statement: `~` on both sides
+  let str := if form = .se && !pe.frames.isEmpty then "~" else hx (toString pe)
   let sf := match pe.frames.getLast? with | none => "!" | some f => hx f.file
   s!"ok n={pe.frames.length} {fr} | {hx pe.etype} {hx pe.msg} | {str} | {sf}"
 
